@@ -447,29 +447,46 @@ def sweep_locs(cfg, P, case, limit=64):
 # ---------------------------------------------------------------------------------------------------
 # model alone: drive the schedule, compare with the reference every cycle
 class Cmp:
-    """expectation = RefDRAM's rddata/rddata_valid writes of the previous cycle, held like signals"""
+    """expectation = RefDRAM's rddata/rddata_valid writes of the previous cycle, held like signals.
+    Mismatches are sorted into categories and the first of each category is kept; the comparison goes on, so one run can
+    show several independent divergences:
+      valid_only_phase0 : rddata_valid is right on phase 0 and missing on a later phase of the same cycle
+      valid             : any other rddata_valid difference
+      data              : rddata differs in a cycle/phase where the reference returns data"""
     def __init__(self, dfi, dw):
         self.phases = dfi.phases
         self.exp = {}
-        self.mis = None
-        self.next_loc = None
+        self.found = {}
+        self.nmis = 0
         self.cur_loc = None
+        self.cur_due = None
+
+    @property
+    def mis(self):
+        return self.found or None
+
+    def note(self, cat, **kw):
+        self.nmis += 1
+        if cat not in self.found:
+            kw["loc"] = self.cur_loc
+            kw["due"] = self.cur_due
+            self.found[cat] = kw
 
     def check(self, sim, t):
-        if self.mis is not None:
-            return
+        exp, get = self.exp, sim.get
+        p0_ok = False
         for p, ph in enumerate(self.phases):
-            ev = self.exp.get(ph.rddata_valid, 0)
-            gv = sim.get(ph.rddata_valid)
+            ev = exp.get(ph.rddata_valid, 0)
+            gv = get(ph.rddata_valid)
             if ev != gv:
-                self.mis = dict(kind="valid", cycle=t, phase=p, exp=ev, got=gv, loc=self.cur_loc)
-                return
+                self.note("valid_only_phase0" if (p > 0 and p0_ok and ev == 1) else "valid", cycle=t, phase=p, exp=ev, got=gv)
+            elif p == 0 and ev == 1:
+                p0_ok = True
             if ev:
-                ed = self.exp.get(ph.rddata, 0)
-                gd = sim.get(ph.rddata)
+                ed = exp.get(ph.rddata, 0)
+                gd = get(ph.rddata)
                 if ed != gd:
-                    self.mis = dict(kind="data", cycle=t, phase=p, exp=ed, got=gd, loc=self.cur_loc)
-                    return
+                    self.note("data", cycle=t, phase=p, exp=ed, got=gd)
 
     def feed(self, dram, sim, t):
         nxt = dram.pending_rd[0] if dram.pending_rd and dram.pending_rd[0][0] <= t + 1 else None
@@ -477,8 +494,7 @@ class Cmp:
         for s, v in w:
             self.exp[s] = v
         self.cur_loc = nxt[3] if nxt is not None else None
-        if nxt is not None:
-            self.cur_due = nxt[0]
+        self.cur_due = nxt[0] if nxt is not None else None
 
 
 class Run:
@@ -513,7 +529,7 @@ def run_trace(cfg, case, backend="fast", trace=None, max_cycles=None):
             cmp_.check(sim, t)
             if trace is not None:
                 trace.append([sim.get(ph.rddata_valid) for ph in phases] + [sim.get(ph.rddata) for ph in phases])
-            if cmp_.mis is not None:
+            if cmp_.nmis > 200:
                 break
             cmp_.feed(dram, sim, t)
             # drive cycle t + 1
@@ -605,32 +621,36 @@ def trace_findings(run):
         raise HarnessError("constructive generator emitted a trace the reference DRAM calls illegal: %s (cfg %s)" % (comp[:2], cfg_key(run.cfg)))
     P, s = run.P, run.sched
     fs = []
-    mis = run.cmp.mis
-    if mis is not None:
-        key = diagnose(run, mis)
+    geom = "%s %d banks x %d rows x %d columns x%d, read_latency=%d write_latency=%d" % (run.cfg["memtype"], P["nbanks"], P["nrows"], P["ncols"], run.cfg["databits"], P["rl"], P["wl"])
+    for cat in ("valid", "valid_only_phase0", "data"):
+        mis = run.cmp.found.get(cat)
+        if mis is None:
+            continue
         loc = mis.get("loc")
-        # which part of the oracle: main trace read, sweep read, or read of a never-written image location
-        part = "rddata"
-        info = ""
+        part, info, ent = "rddata", "", None
         if loc is not None:
             _, bank, row, cw = loc
-            due = getattr(run.cmp, "cur_due", None)
-            ent = None
             for e in s.rwlog:
-                if e["kind"] == "RD" and e["t"] // P["nph"] + P["rl"] == due:
+                if e["kind"] == "RD" and e["t"] // P["nph"] + P["rl"] == mis["due"]:
                     ent = e
+            info = " (read of bank %d row %d column %d issued at DRAM clock %s%s)" % (bank, row, cw << P["align"], ent["t"] if ent else "?", ", read-back sweep" if ent is not None and ent["sweep"] else "")
+        if cat == "valid_only_phase0":
+            fs.append(dict(clause="C19.rddata_valid", key="only_phase0_valid", what="cycle %d: rddata_valid is 1 on phase 0 and 0 on phase %d of the %d-phase DFI while the read data of that cycle is returned on all phases%s; %s" % (
+                mis["cycle"], mis["phase"], P["nph"], info, geom)))
+            continue
+        key = diagnose(run, mis)
+        if cat == "valid":
+            fs.append(dict(clause="C19.rddata_valid", key=key, what="cycle %d phase %d: model rddata_valid=%d, reference %d%s; %s" % (mis["cycle"], mis["phase"], mis["got"], mis["exp"], info, geom)))
+            continue
+        # which part of the oracle: main trace read, sweep read, or read of a never-written image location
+        if loc is not None:
             written = any(e["kind"] == "WR" and (e["bank"], e["row"], e["cw"]) == (bank, row, cw) for e in s.rwlog)
             if ent is not None and ent["sweep"]:
                 part = "final_contents"
             if not written and run.cfg.get("init") and run.case.get("kind") == "image":
                 part = "init_image"
                 key = run.cfg["init"]["mapping"] + ":" + key
-            info = " (read of bank %d row %d column %d issued at DRAM clock %s%s)" % (bank, row, cw << P["align"], ent["t"] if ent else "?", ", read-back sweep" if ent is not None and ent["sweep"] else "")
-        if mis["kind"] == "valid":
-            fs.append(dict(clause="C19.rddata_valid", key=key, what="cycle %d phase %d: model rddata_valid=%d, reference %d%s; read_latency=%d" % (mis["cycle"], mis["phase"], mis["got"], mis["exp"], info, P["rl"])))
-        else:
-            fs.append(dict(clause="C19." + part, key=key, what="cycle %d phase %d: model rddata=0x%x, reference 0x%x%s; %s %d banks x %d rows x %d columns, read_latency=%d write_latency=%d" % (
-                mis["cycle"], mis["phase"], mis["got"], mis["exp"], info, run.cfg["memtype"], P["nbanks"], P["nrows"], P["ncols"], P["rl"], P["wl"])))
+        fs.append(dict(clause="C19." + part, key=key, what="cycle %d phase %d: model rddata=0x%x, reference 0x%x%s; %s" % (mis["cycle"], mis["phase"], mis["got"], mis["exp"], info, geom)))
     # classes / non-triviality
     classes = set()
     T = run.case["timing"]
@@ -702,7 +722,7 @@ def run_coremodel(cfg, stim, backend="fast", trace=None, max_cycles=None, tail=1
             cmp_.check(sim, t)
             if obs is not None:
                 trace.append([sim.get(s) for s in obs])
-            if cmp_.mis is not None:
+            if cmp_.nmis > 200:
                 break
             cmp_.feed(dram, sim, t)
             w = []
@@ -742,8 +762,11 @@ def core_findings(run):
         # the controller's stream is not a legal trace: outside this property's domain (C02 is the property about that)
         return [], {"controller_trace_illegal"}, False, False
     fs = []
-    mis = run.cmp.mis
-    if mis is not None:
+    geom = "%s %d banks x %d rows x %d columns x%d behind the real controller" % (run.cfg["memtype"], P["nbanks"], P["nrows"], P["ncols"], run.cfg["databits"])
+    for cat in ("valid", "valid_only_phase0", "data"):
+        mis = run.cmp.found.get(cat)
+        if mis is None:
+            continue
         loc = mis.get("loc")
         key = "controller_stream"
         if P["colbits"] > 10:
@@ -755,11 +778,15 @@ def core_findings(run):
             info = " (read of bank %d row %d column %d)" % (bank, row, cw << P["align"])
             if len(dram.rw_log) > run.n_main_rw and mis["cycle"] * P["nph"] >= dram.rw_log[run.n_main_rw][0] + P["rl"] * P["nph"] - P["nph"]:
                 part = "final_contents"
-        if mis["kind"] == "valid":
-            fs.append(dict(clause="C19.rddata_valid", key=key, what="cycle %d phase %d: model rddata_valid=%d, reference %d%s" % (mis["cycle"], mis["phase"], mis["got"], mis["exp"], info)))
+        if cat == "valid_only_phase0":
+            fs.append(dict(clause="C19.rddata_valid", key="only_phase0_valid", what="cycle %d: rddata_valid is 1 on phase 0 and 0 on phase %d of the %d-phase DFI while the read data of that cycle is returned on all phases%s; %s" % (
+                mis["cycle"], mis["phase"], P["nph"], info, geom)))
+        elif cat == "valid":
+            fs.append(dict(clause="C19.rddata_valid", key=key, what="cycle %d phase %d: model rddata_valid=%d, reference %d%s; %s" % (mis["cycle"], mis["phase"], mis["got"], mis["exp"], info, geom)))
         else:
-            fs.append(dict(clause="C19." + part, key=key, what="cycle %d phase %d: model rddata=0x%x, reference 0x%x%s; %s %d banks x %d rows x %d columns behind the real controller" % (
-                mis["cycle"], mis["phase"], mis["got"], mis["exp"], info, run.cfg["memtype"], P["nbanks"], P["nrows"], P["ncols"])))
+            fs.append(dict(clause="C19." + part, key=key, what="cycle %d phase %d: model rddata=0x%x, reference 0x%x%s; %s" % (mis["cycle"], mis["phase"], mis["got"], mis["exp"], info, geom)))
+    if fs:
+        pass
     elif not run.completed:
         fs.append(dict(clause="C19.core_incomplete", key="cap", what="controller + model did not finish within %d cycles" % run.cap))
     T = run.cfg["core"]["timing"]
